@@ -201,9 +201,8 @@ func (fi *File) Type() NodeType {
 }
 
 func (fi *File) Mode() (os.FileMode, error) {
-	fi.nodeLock.RLock()
-	defer fi.nodeLock.RUnlock()
-
+	// GetNode takes nodeLock itself. Taking it here as well is a recursive
+	// read lock, which deadlocks as soon as a writer queues in between.
 	nd, err := fi.GetNode()
 	if err != nil {
 		return 0, err
@@ -242,9 +241,7 @@ func (fi *File) SetMode(mode os.FileMode) error {
 
 // ModTime returns the files' last modification time.
 func (fi *File) ModTime() (time.Time, error) {
-	fi.nodeLock.RLock()
-	defer fi.nodeLock.RUnlock()
-
+	// See Mode: no recursive read lock.
 	nd, err := fi.GetNode()
 	if err != nil {
 		return time.Time{}, err
